@@ -160,6 +160,25 @@ WhyNot(c, o) ==
   ELSE IF o.delivered # Expected(c) THEN "records-differ"
   ELSE "records-alias"
 (***************************************************************************)
+(* Stress family: the SAME call repeated c.stress.calls times, from        *)
+(* several goroutines (the WriterTo branch runs two goroutines per call;   *)
+(* which of them reports first must not matter).  One aggregated           *)
+(* observation o = [calls, parse, other, none]: how many calls returned    *)
+(* the parser's error, another error, no error.  The statement holds for   *)
+(* every single call, so for a malformed input all of them return the      *)
+(* parser's error.                                                         *)
+(***************************************************************************)
+StressModel(c, n) ==
+  LET o == Model(c) IN
+  [calls |-> n, parse |-> IF o.err = "parse" THEN n ELSE 0,
+   none |-> IF o.err = "none" THEN n ELSE 0, other |-> IF o.err \notin {"parse", "none"} THEN n ELSE 0]
+
+StressAllowed(c, n, o) ==
+  /\ o.calls = n
+  /\ c.bad => (o.parse = n /\ o.other = 0 /\ o.none = 0)
+  /\ (~c.bad /\ Supported(c)) => (o.none = n /\ o.other = 0 /\ o.parse = 0)
+
+(***************************************************************************)
 (* Reuse of ONE codec value for several calls (state machine).  The        *)
 (* options belong to the codec; every call must behave like the first.     *)
 (*   c.calls = <<[table, bad], ...>>   the inputs of the successive calls   *)
